@@ -19,7 +19,8 @@ META = {
             "and the reported permissions are compared with the model. The three statements of the property are invariants of the model.",
     "note": "Trusted: Sec.tla's decision rules (refined against the code by trace rejection; the three property statements are checked "
             "on the model by TLC), the Go replayer's comparison, proj's content projection. Password alphabet is finite "
-            "(empty, two ASCII, one non-ASCII in NFKC form, one 40-byte); see C22 for password normalisation classes.",
+            "(empty, two symbolic passwords realised with 13 byte-length classes as ASCII / multi-byte text, one non-ASCII, one 40-byte); "
+            "see C22 for password normalisation classes.",
     "technique": "TLA+ history model (Sec.tla/SecHist.tla) exhaustively enumerated by TLC, every behaviour replayed into the real *File API",
     "design_ref": "DESIGN.md §5 C25",
 }
@@ -34,7 +35,9 @@ def run(ctx):
         modern = ["aes_256", "aes_256_r6"][ctx.seed % 2]
         if ctx.quick:
             # all algorithms up to length 2, plus length 3 for one revision <= 4 and one revision 5/6 algorithm chosen by the seed
-            cfgs = [("SecHist_quick.cfg", {"DeepAlgs": '{"%s", "%s"}' % (legacy, modern)})]
+            # ... and, for every algorithm, length 2 with three of the six long-password realisations (Sec!PwLens) chosen by the seed
+            reals = "{0, 1, 3, 5}" if ctx.seed % 2 else "{0, 2, 4, 6}"
+            cfgs = [("SecHist_quick.cfg", {"DeepAlgs": '{"%s", "%s"}' % (legacy, modern), "Reals": reals})]
         else:
             cfgs = [("SecHist_len4.cfg", None), ("SecHist_pw4.cfg", None)]
         tot = {"cases": 0, "probes": 0, "ok_steps": 0, "nontrivial": 0, "rejected_probes": 0}
@@ -72,8 +75,9 @@ def run(ctx):
             for m in rows:
                 steps = ";".join("%s(%s,%s,%s)" % (s["op"], s["u"], s["o"], s["n"]) for s in m["steps"])
                 kind = m["what"].split("(")[0].strip()
-                ctx.report("%s|%s|%s" % (m["alg"], steps, kind),
-                           "%s after %s [%s]: expected %s, real code gave %s" % (m["what"], steps, m["alg"], m["want"], m["got"]), m)
+                ctx.report("%s|r%d|%s|%s" % (m["alg"], m.get("real", 0), steps, kind),
+                           "%s after %s [%s, password realisation %d: a=%d bytes, b=%d bytes]: expected %s, real code gave %s" % (
+                               m["what"], steps, m["alg"], m.get("real", 0), len(m.get("pw_a", "").encode()), len(m.get("pw_b", "").encode()), m["want"], m["got"]), m)
         ev.cov(evaluations=tot["cases"] + tot["probes"], distinct_nontrivial=tot["nontrivial"],
                traces_validated_against_impl=tot["cases"],
                rule="one case = one reachable state of SecHist.tla = one history of <= MaxLen steps (a refused step ends the history), replayed "
@@ -85,6 +89,7 @@ def run(ctx):
         ev.assume("expected outcomes come from spec/Sec.tla (Outcome/After/OpenOutcome); revisions <= 4 use the user password as owner-password "
                   "candidate when no owner password is supplied (ISO 32000-1 algorithm 3), revisions 5/6 do not",
                   "a refused step ends a history: it leaves the document unchanged (checked byte for byte), so continuations add no new states",
-                  "passwords are drawn from a finite alphabet; AES-256 password normalisation (SASLprep) classes are exercised by C22")
+                  "the symbolic passwords a and b are realised per history with byte lengths 1, 32, 33, 40, 41, 48, 49, 56, 64, 65, 127, 128, 129 "
+                  "(Sec!PwLens), ASCII and multi-byte, always differing in their first byte; password normalisation classes are exercised by C22")
     finally:
         shutil.rmtree(d, ignore_errors=True)
